@@ -53,7 +53,7 @@ var srcUnits = []srcUnit{
 	{dir: ".", path: modPath, lean: "Lib", pre: "lib",
 		funcs: []string{"GetTotalSeconds", "GetFloatHour", "FloatHourToHMS", "toUint8", "HMS.IsValid", "Date.IsValid"}},
 	{dir: "interval", path: modPath + "/interval", lean: "Interval", pre: "interval",
-		funcs: []string{"Less", "GetPointList", "GetIntervalList", "Normalize", "Humanize"}},
+		funcs: []string{"Less", "GetPointList", "GetIntervalList", "Normalize", "Humanize", "Extract", "IntervalListByNumList"}},
 	{dir: "utils/stack", path: modPath + "/utils/stack", lean: "Stack", pre: "stack",
 		funcs: []string{"Push", "Pop"}},
 	{dir: "cal_types/julian", path: modPath + "/cal_types/julian", lean: "Julian", pre: "julian",
@@ -584,6 +584,11 @@ func (t *fnTrans) expr(e ast.Expr) lexpr {
 			}
 			bail("package-level variable %s", o.Name())
 		}
+		if _, isNil := o.(*types.Nil); isNil && known {
+			if _, ok := tv.Type.Underlying().(*types.Slice); ok {
+				return lexpr{"([] : " + t.leanType(tv.Type) + ")", false}
+			}
+		}
 		if _, ok := o.(*types.Var); !ok {
 			bail("identifier %s is not a variable", x.Name)
 		}
@@ -965,6 +970,17 @@ func (t *fnTrans) assigned(stmts []ast.Stmt, declaredInside map[types.Object]boo
 			for _, b := range x.Body.List {
 				walk(b)
 			}
+		case *ast.RangeStmt:
+			for _, e := range []ast.Expr{x.Key, x.Value} {
+				if id, ok := e.(*ast.Ident); ok && x.Tok == token.DEFINE {
+					if d := info.Defs[id]; d != nil {
+						declaredInside[d] = true
+					}
+				}
+			}
+			for _, b := range x.Body.List {
+				walk(b)
+			}
 		}
 	}
 	for _, s := range stmts {
@@ -1127,7 +1143,17 @@ func (t *fnTrans) stmts(list []ast.Stmt, k string, depth int, nres int) string {
 				}
 				// evaluate the right-hand side BEFORE the left name is (re)bound
 				rhs := x.Rhs[0]
-				x0 := t.expr(rhs)
+				var x0 lexpr
+				if id, ok := rhs.(*ast.Ident); ok && id.Name == "nil" {
+					// s = nil: the empty slice (the translation does not distinguish nil from empty: len, range, append agree)
+					lt := info.Types[x.Lhs[0]].Type
+					if _, isSl := lt.Underlying().(*types.Slice); !isSl {
+						bail("nil assigned to %s", lt)
+					}
+					x0 = lexpr{"([] : " + t.leanType(lt) + ")", false}
+				} else {
+					x0 = t.expr(rhs)
+				}
 				lo := lhsObj(x.Lhs[0])
 				t.noteOwner(lo, rhs)
 				n := t.nameOf(lo)
@@ -1298,7 +1324,7 @@ func (t *fnTrans) stmts(list []ast.Stmt, k string, depth int, nres int) string {
 	case *ast.RangeStmt:
 		// `for _, v := range xs { … return e … }` over a slice of integers, the body assigning nothing outside itself:
 		// the first iteration that returns decides; otherwise the statements after the loop run
-		if t.inRange || t.inFold != "" {
+		if t.inRange {
 			bail("nested range loop")
 		}
 		if out, ok := t.foldLoop(x, rest, k, depth, nres); ok {
@@ -1339,6 +1365,9 @@ func (t *fnTrans) stmts(list []ast.Stmt, k string, depth int, nres int) string {
 		out += ind(depth) + "match " + rn + " with\n" + ind(depth) + "| some _v => pure _v\n" + ind(depth) + "| none =>\n"
 		return out + t.stmts(rest, k, depth+1, nres)
 	case *ast.ForStmt:
+		if out, ok := t.countLoop(x, rest, k, depth, nres); ok {
+			return out
+		}
 		if x.Init != nil || x.Post != nil {
 			bail("three-clause for loop")
 		}
@@ -1407,8 +1436,6 @@ func (t *fnTrans) foldLoop(x *ast.RangeStmt, rest []ast.Stmt, k string, depth in
 			hasContinue = true
 		case *ast.ReturnStmt:
 			hasReturn = true
-		case *ast.ForStmt, *ast.RangeStmt:
-			bail("nested loop inside a range loop")
 		}
 		return true
 	})
@@ -1460,14 +1487,119 @@ func (t *fnTrans) foldLoop(x *ast.RangeStmt, rest []ast.Stmt, k string, depth in
 	if hasReturn {
 		rho = t.resType
 	}
+	ranged := t.val(x.X)
+	outer := t.inFold
 	t.inFold = pat
 	body := t.stmts(x.Body.List, "pure (GoSem.Flow.next "+pat+")", depth+2, nres)
-	t.inFold = ""
+	t.inFold = outer
 	t.tmp++
 	rn := fmt.Sprintf("_r%d", t.tmp)
-	out := ind(depth) + "let " + rn + " ← GoSem.forFold (ρ := " + rho + ") (fun " + pat + " " + kn + " " + vn + " => do\n" + body + ind(depth+1) + ") " + t.val(x.X) + " 0 " + pat + "\n"
+	out := ind(depth) + "let " + rn + " ← GoSem.forFold (ρ := " + rho + ") (fun " + pat + " " + kn + " " + vn + " => do\n" + body + ind(depth+1) + ") " + ranged + " 0 " + pat + "\n"
 	out += ind(depth) + "match " + rn + " with\n"
+	if hasReturn && outer != "" {
+		// a return inside a nested loop leaves the enclosing loop too
+		out += ind(depth) + "| GoSem.Flow.ret _v => pure (GoSem.Flow.ret _v)\n"
+	} else if hasReturn {
+		out += ind(depth) + "| GoSem.Flow.ret _v => pure _v\n"
+	} else {
+		out += ind(depth) + "| GoSem.Flow.ret _v => nomatch _v\n"
+	}
+	out += ind(depth) + "| GoSem.Flow.next " + pat + " =>\n"
+	return out + t.stmts(rest, k, depth+1, nres), true
+}
+
+// countLoop: `for i := a; i < b; i++ { … }` where the body assigns neither i nor anything b mentions: exactly
+// max(0, b-a) iterations with i = a, a+1, … — GoSem.forCount, no fuel
+func (t *fnTrans) countLoop(x *ast.ForStmt, rest []ast.Stmt, k string, depth int, nres int) (string, bool) {
+	info := t.sp.info
+	init, ok := x.Init.(*ast.AssignStmt)
+	if !ok || init.Tok != token.DEFINE || len(init.Lhs) != 1 || len(init.Rhs) != 1 {
+		return "", false
+	}
+	iv, ok := init.Lhs[0].(*ast.Ident)
+	if !ok {
+		return "", false
+	}
+	iobj := info.Defs[iv]
+	cond, ok := x.Cond.(*ast.BinaryExpr)
+	if !ok || cond.Op != token.LSS {
+		return "", false
+	}
+	if ci, ok := cond.X.(*ast.Ident); !ok || info.Uses[ci] != iobj {
+		return "", false
+	}
+	post, ok := x.Post.(*ast.IncDecStmt)
+	if !ok || post.Tok != token.INC {
+		return "", false
+	}
+	if pi, ok := post.X.(*ast.Ident); !ok || info.Uses[pi] != iobj {
+		return "", false
+	}
+	if !isInt(iobj.Type()) || uintBits(iobj.Type()) != 0 {
+		return "", false
+	}
+	set := map[types.Object]bool{}
+	t.assigned(x.Body.List, map[types.Object]bool{}, set)
+	if set[iobj] {
+		bail("counted loop whose body assigns the counter")
+	}
+	boundUses := false
+	ast.Inspect(cond.Y, func(n ast.Node) bool {
+		if id, ok := n.(*ast.Ident); ok && set[info.Uses[id]] {
+			boundUses = true
+		}
+		if _, ok := n.(*ast.CallExpr); ok {
+			boundUses = true
+		}
+		return true
+	})
+	if boundUses {
+		bail("counted loop whose bound may change")
+	}
+	hasReturn := false
+	ast.Inspect(x.Body, func(n ast.Node) bool {
+		switch b := n.(type) {
+		case *ast.BranchStmt:
+			if b.Tok != token.CONTINUE || b.Label != nil {
+				bail("%s inside a counted loop", b.Tok)
+			}
+		case *ast.ReturnStmt:
+			hasReturn = true
+		}
+		return true
+	})
+	var objs []types.Object
+	for o := range set {
+		objs = append(objs, o)
+	}
+	sort.Slice(objs, func(i, j int) bool { return objs[i].Pos() < objs[j].Pos() })
+	var ns []string
+	for _, o := range objs {
+		ns = append(ns, t.nameOf(o))
+	}
+	pat := "()"
+	if len(ns) == 1 {
+		pat = ns[0]
+	} else if len(ns) > 1 {
+		pat = "(" + strings.Join(ns, ", ") + ")"
+	}
+	from, to := t.val(init.Rhs[0]), t.val(cond.Y)
+	in := t.nameOf(iobj)
+	rho := "Empty"
 	if hasReturn {
+		rho = t.resType
+	}
+	outer := t.inFold
+	t.inFold = pat
+	body := t.stmts(x.Body.List, "pure (GoSem.Flow.next "+pat+")", depth+2, nres)
+	t.inFold = outer
+	t.tmp++
+	rn := fmt.Sprintf("_r%d", t.tmp)
+	out := ind(depth) + "let " + rn + " ← GoSem.forCount (ρ := " + rho + ") (fun " + pat + " " + in + " => do\n" + body + ind(depth+1) + ") " + from + " " + to + " " + pat + "\n"
+	out += ind(depth) + "match " + rn + " with\n"
+	if hasReturn && outer != "" {
+		out += ind(depth) + "| GoSem.Flow.ret _v => pure (GoSem.Flow.ret _v)\n"
+	} else if hasReturn {
 		out += ind(depth) + "| GoSem.Flow.ret _v => pure _v\n"
 	} else {
 		out += ind(depth) + "| GoSem.Flow.ret _v => nomatch _v\n"
